@@ -38,7 +38,11 @@ fn main() {
     let n: usize = args.get(2).and_then(|s| s.parse().ok()).unwrap_or(100);
     let first: usize = args.get(3).and_then(|s| s.parse().ok()).unwrap_or(0);
     let seed = seed_from_env();
-    std::panic::set_hook(Box::new(|_| {}));
+    if std::env::var("VERIF_DEBUG").is_ok() {
+        std::panic::set_hook(Box::new(|i| eprintln!("PANIC {}", i)));
+    } else {
+        std::panic::set_hook(Box::new(|_| {}));
+    }
     let stdout = std::io::stdout();
     let mut out = std::io::BufWriter::new(stdout.lock());
     for i in first..first + n {
